@@ -115,6 +115,12 @@ func leadingZeros(v uint64) int {
 }
 
 func tokenKind(tok string) string {
+	if strings.HasPrefix(tok, "com(") {
+		return "comment"
+	}
+	if strings.HasPrefix(tok, "n~") {
+		return "wide-binary-float"
+	}
 	if i := strings.IndexByte(tok, ':'); i > 0 {
 		k := tok[:i]
 		if k == "n" {
